@@ -84,7 +84,7 @@ CLAIMED = {
                  "get_segment_by_sinogram: every element of the returned object is read once from the closed-form place and scaled once; (h) ProjData base "
                  "class loops (set_segment x2, get_segment_by_* x2, set_related_viewgrams, fill x2): every part of the object is handed to the smaller path "
                  "exactly once with its own indices and a failure is reported. Parametric: numbers of views / tangential positions / bytes per element are constants per job. "
-                 "Not decided: the SegmentByView/SegmentBySinogram conversions (trusted), order inside the one "
+                 "(i) the SegmentByView/SegmentBySinogram conversions move rows between [axial][view] and [view][axial] order (row loops and constructor loops under loop contracts); the constructor of ProjDataInMemory and ProjDataFromStream::activate_TOF establish the TOF part of the layout description. Not decided: order inside the one "
                  "block of set_segment(by view) in view order, on-disk number type and byte order (write_data/read_data are stubs), the rest of the Interfile "
                  "header round trip (keyword parsing, the two std::sort calls of find_segment_sequence: assumed), that a flushed fstream is visible to "
                  "another process (OS behaviour; exercised natively by the replay driver)."),
